@@ -190,18 +190,6 @@ func ruleLockBypass(c *eng.Ctx) {
 		}
 	}
 	c.Check(rel, rule, "typeDependentLimit:returns-ReleaseToken-after-GetToken", fn.Pos(), "after GetToken the function returns be.sem.ReleaseToken as the release action")
-	// the freeze lock is only passed through (released before returning)
-	unlockDeferred := false
-	for _, b := range fn.Blocks {
-		for _, in := range b.Instrs {
-			if d, ok := in.(*ssa.Defer); ok {
-				if f := d.Call.StaticCallee(); f != nil && (f.Name() == "Unlock") {
-					unlockDeferred = true
-				}
-			}
-		}
-	}
-	c.Check(unlockDeferred, rule, "typeDependentLimit:freeze-lock-released", fn.Pos(), "the freeze lock is released again before the operation proceeds (defer Unlock)")
 	// Freeze / Unfreeze are the intended split pair
 	for _, n := range []string{"Freeze", "Unfreeze"} {
 		f := c.NeedFn(rule, pkgSema+".(*connectionLimitedBackend)."+n)
@@ -272,5 +260,5 @@ func ruleLockBypass(c *eng.Ctx) {
 		}
 		c.Check(ok, rule, "sema.NewBackend:limit-from-Properties.Connections", nb.Pos(), "the semaphore capacity is be.Properties().Connections")
 	}
-	c.Floor(rule, 12, 13)
+	c.Floor(rule, 11, 11)
 }
